@@ -1,3 +1,4 @@
+import PcVerif.Model.VttWriter
 import PcVerif.Ops.Caption
 import PcVerif.Model.Srt
 import PcVerif.Model.Vtt
@@ -22,6 +23,7 @@ def textFormatOps : List (String × Handler) := [
     | [shift, ign, s] => encPErr (encList encRCue) (Vtt.read { shiftUs := decInt shift, ignoreErrors := decBool ign } (decStr s))
     | _ => "bad-args"),
   ("mdvd.read", fun a => match a with | [s] => encPErr encCaptions (MicroDvd.read (decStr s)) | _ => "bad-args"),
-  ("mdvd.write", fun a => match a with | [l] => encStr (MicroDvd.write (decLangs l)) | _ => "bad-args")
+  ("mdvd.write", fun a => match a with | [l] => encStr (MicroDvd.write (decLangs l)) | _ => "bad-args"),
+  ("vtt.write", fun a => match a with | [l] => encStr (VttW.writePlain ((decLangs l).headD [])) | _ => "bad-args")
 ]
 end PcVerif.Ops
